@@ -1036,6 +1036,8 @@ def render_world(ogp, top_q, out_tmpl, model, opts, rep_, embed=True):
             frame[(top_q, name)] = V('crate::WriteOptions', **o)
         elif ty.startswith('Option<'):
             frame[(top_q, name)] = None if embed else ('some', 'shader.wgsl')
+        elif ty.replace('&', '').replace("'_", '').endswith(('naga::Module', 'Module')) and model is not None:
+            frame[(top_q, name)] = model.module          # the assembling function takes the parsed module (front end split off into a caller)
         else:
             frame[(top_q, name)] = '// model shader \\ "quoted" {braces}\n@fragment fn fs_main() {}'
     ev.params.append(frame)
